@@ -13,6 +13,12 @@ package stdlib_contracts
 //@ ensures (result == 0) == (string(a) == string(b))
 //@ ensures (result < 0) == lexlt(a, b)
 
+//@ func Clone
+//@ assumed
+//@ pure
+//@ ensures[nil] len(b) == 0 ==> len(result) == 0
+//@ ensures[copy] (len(result) == 0 || fresh(result)) && len(result) == len(b) && forall(i, 0, len(b), result[i] == b[i])
+
 //@ func Equal
 //@ assumed
 //@ pure
